@@ -32,6 +32,11 @@ class IndexErr(IndexError):
 AssertErr = AssertionError
 
 
+class AssertSub(AssertionError):
+    """an application-specific subclass of a privileged type: raised by tasks outside any scope of their own, i.e.
+    where it is purely a CHILD failure of the parent scope (children are tested with isinstance)"""
+
+
 CLASSES = {'Key': KeyErr, 'Index': IndexErr, 'Assert': AssertErr}
 
 
@@ -63,6 +68,7 @@ class World:
         self.nres = nres
         self.nitem = 0
         self.tasks = {}       # k -> Task
+        self.cmps = {}        # shared comparison objects of tracked levels
         self.task_id = {}     # id(Task) -> k
         self.scopes = {}      # s -> Scope
         self.scope_id = {}
@@ -89,7 +95,7 @@ class World:
         """structural encoding of an exception, the same shape as the model's values"""
         if isinstance(err, KeyErr) and err.args and isinstance(err.args[0], int) and err.args[0] >= 1000:
             return ['exc', err.args[0], 'Key']
-        if isinstance(err, (KeyErr, IndexErr)) or (type(err) is AssertionError and err.args
+        if isinstance(err, (KeyErr, IndexErr)) or (type(err) in (AssertionError, AssertSub) and err.args
                                                      and isinstance(err.args[0], int)):
             cls = 'Key' if isinstance(err, KeyErr) else 'Index' if isinstance(err, IndexErr) else 'Assert'
             return ['exc', err.args[0], cls]
@@ -274,6 +280,8 @@ class Puppet:
     async def op_raise(self, op):
         self.w.nexc += 1
         self.emit('b', op='raise', cls=op['cls'], id=self.w.nexc)
+        if op['cls'] == 'Assert' and self.scope and not self.scope_stack:
+            raise AssertSub(self.w.nexc)
         raise CLASSES[op['cls']](self.w.nexc)
 
     async def op_avail(self, op):
@@ -518,10 +526,12 @@ class Puppet:
                         if cons == 'break1' and n == 1:
                             break
                 finally:
-                    try:
-                        await agen.aclose()      # the documented way to abandon an async iterator early
-                    except GeneratorExit:
-                        pass
+                    # (a caller that is itself being closed cannot await; the generator was closed along with it)
+                    if sys.exc_info()[0] is not GeneratorExit:
+                        try:
+                            await agen.aclose()      # the documented way to abandon an async iterator early
+                        except GeneratorExit:
+                            pass
                 self.emit('r', op='flow', v=[])
         except (Exception, Concurrent) as err:
             self.emit('x', op='flow', exc=self.w.enc(err))
@@ -633,9 +643,16 @@ class Puppet:
         import operator
         rel = op.get('rel', 'ge')       # all six comparisons of the tracked level
 
+        shared = bool(op.get('shared'))
+        if shared:      # one comparison object per (supply, relation, value), kept by the world, shared by its waiters
+            key = (op['p'], rel, op['v'])
+            if key not in self.w.cmps:
+                self.w.cmps[key] = getattr(operator, rel)(self.w.pools[op['p']], {'a': op['v']})
+            cond = self.w.cmps[key]
+
         async def f():
-            await getattr(operator, rel)(self.w.pools[op['p']], {'a': op['v']})
-        await self.leaf(op, f, {'p': op['p'], 'v': op['v'], 'rel': rel}, tag={'p': op['p']})
+            await (cond if shared else getattr(operator, rel)(self.w.pools[op['p']], {'a': op['v']}))
+        await self.leaf(op, f, {'p': op['p'], 'v': op['v'], 'rel': rel, 'shared': shared}, tag={'p': op['p']})
 
     async def op_levels(self, op):
         self.emit('p', op='levels', p=op['p'], v=self.w.pools[op['p']].levels.a)
